@@ -106,6 +106,25 @@ def run(tier):
             suite.identity('swap.evaluated%s%s' % (dx, dy), entries(mat(lhs)),
                            entries(mat(A @ B >> Tensor.swap(Dim(*dx), Dim(*dy)))), extra=free(A, B),
                            functions=['tensor.Functor.__call__', fq + 'swap'], what='the evaluated swap is Tensor.swap of the images')
+    # wires of dimension one: a box whose image is a scalar although its domain and codomain have different numbers of wires
+    # (m : s @ s -> s, cups and caps on s) must not disturb the boxes to its right -- tensor is the Kronecker product and
+    # composition the matrix product also around the empty type
+    with suite.guard('unit wires beside boxes', ['tensor.Functor.__call__']):
+        s_, x_, y_ = _r.Ty('s'), _r.Ty('x'), _r.Ty('y')
+        bm, bu = _r.Box('m', s_ @ s_, s_), _r.Box('u', _r.Ty(), s_ @ s_ @ s_)
+        bgx, bgy = _r.Box('g', x_, x_), _r.Box('h', y_, x_)
+        for dx, dy in (((2,), (2,)), ((2,), (3,)), ((2, 2), (3,))):
+            G, H = sym_tensor(dx, dx, 'g'), sym_tensor(dy, dx, 'h')
+            F = _t.Functor({s_: Dim(1), x_: Dim(*dx), y_: Dim(*dy)},
+                           {bm: [3], bu: [5], bgx: G.array, bgy: H.array})
+            for nm, d, want in (
+                    ('m @ Id(x) @ g', bm @ _r.Id(x_) @ bgx, Tensor(Dim(1), Dim(1), [3]) @ Tensor.id(Dim(*dx)) @ G),
+                    ('m @ h @ g', bm @ bgy @ bgx, Tensor(Dim(1), Dim(1), [3]) @ H @ G),
+                    ('u @ Id(y) @ g >> m @ Id(s) @ h @ g', bu @ _r.Id(y_) @ bgx >> bm @ _r.Id(s_) @ bgy @ bgx,
+                     Tensor(Dim(1), Dim(1), [15]) @ H @ (G >> G)),
+                    ('Cup(s, s.r) @ Id(y) @ g', _r.Cup(s_, s_.r) @ _r.Id(y_) @ bgx, Tensor.id(Dim(*dy)) @ G)):
+                suite.identity('unit_wires[%s]%s%s' % (nm, dx, dy), entries(mat(F(d))), entries(mat(want)), extra=free(G, H),
+                               functions=['tensor.Functor.__call__'], what='boxes with scalar images leave the wires to their right in place')
     return suite.result()
 
 
